@@ -228,6 +228,41 @@ struct TrkM : TrkCore
     ~TrkM() { die(); }
 };
 
+// like Trk, but its move constructor and move assignment are not noexcept (code that chooses between move and copy
+// with std::move_if_noexcept-style logic takes a different path)
+struct TrkN : TrkCore
+{
+    TrkN(int v)
+    {
+        val = v;
+        ++R().value_ctor;
+        born("value");
+    }
+    TrkN(const TrkN& o)
+    {
+        o.check("copy-from");
+        val = o.val;
+        ++R().copy_ctor;
+        born("copy");
+    }
+    TrkN(TrkN&& o) { take(o); }
+    TrkN& operator=(const TrkN& o)
+    {
+        check("assign-to");
+        o.check("copy-from");
+        ++R().copy_assign;
+        set(o.val);
+        return *this;
+    }
+    TrkN& operator=(TrkN&& o)
+    {
+        move_assign(o);
+        return *this;
+    }
+    ~TrkN() { die(); }
+};
+static_assert(!std::is_nothrow_move_constructible_v<TrkN> && std::is_copy_constructible_v<TrkN>);
+
 static_assert(sizeof(Trk) == 8 && sizeof(TrkM) == 8);
 static_assert(!std::is_trivially_copyable_v<Trk> && !std::is_copy_constructible_v<TrkM>);
 static_assert(std::is_copy_constructible_v<Trk> && std::is_move_constructible_v<TrkM>);
